@@ -6,6 +6,8 @@ root = "/verif/seeded"
 names = sorted(os.listdir(root))
 if len(sys.argv) > 1:
     names = [n for n in names if any(n.startswith(p) for p in sys.argv[1:])]
+if os.environ.get("RESEED_NEWEST_FIRST"):
+    names = names[::-1]
 bad = []
 for n in names:
     mp = os.path.join(root, n, "meta.json")
